@@ -247,6 +247,18 @@ impl TopicCleanTracker {
         self.store.persist_updates(&updates)
     }
 
+    /// Synchronously writes the current state of every topic to the marker store.
+    pub fn flush(&self) -> std::io::Result<()> {
+        let snapshot: Vec<(String, CleanMarkerRecord)> = match self.states.read() {
+            Ok(guard) => guard
+                .iter()
+                .map(|(topic, state)| (topic.clone(), state.snapshot()))
+                .collect(),
+            Err(_) => return Ok(()),
+        };
+        self.store.persist_updates(&snapshot)
+    }
+
     #[cfg(test)]
     pub fn force_flush_for_test(&self) -> std::io::Result<()> {
         let snapshot = {
